@@ -179,7 +179,7 @@ Section Proofs.
 
   (* ---- main refinement lemma ---- *)
   Theorem inst_type_refines : forall t, dom_ty t = true ->
-    ty_cpp (inst_type q tnames insts cpp icls t) = subst_cpp t.
+    ty_cpp (inst_type_impl q tnames insts cpp icls t) = subst_cpp t.
   Proof.
     intros t Hd. destruct t as [[ns n ins] c p b | ns n ps c p].
     - (* plain type *)
@@ -191,7 +191,7 @@ Section Proofs.
         * (* whole-name parameter *)
           apply negb_true_iff in Hd.
           destruct (sigma_param _ Hp) as [k [Hk Hs]].
-          unfold inst_type. cbn [ty_const ty_ptr ty_basic ty_typename tn_cpp nm_str ns_prefix].
+          unfold inst_type_impl. cbn [ty_const ty_ptr ty_basic ty_typename tn_cpp nm_str ns_prefix].
           cbn [append]. unfold scoped_template. rewrite (scoped_no_colons _ _ _ Hd).
           rewrite Hk. cbn [ty_cpp Subst.subst_cpp app nm_str subst_path tn_args_cpp].
           unfold subst_head. rewrite Hs. unfold join. cbn [String.concat].
@@ -199,7 +199,7 @@ Section Proofs.
         * destruct (String.eqb n "This") eqn:Ht.
           -- (* This *)
              apply String.eqb_eq in Ht. subst n.
-             unfold inst_type. cbn [ty_const ty_ptr ty_basic ty_typename tn_cpp nm_str ns_prefix].
+             unfold inst_type_impl. cbn [ty_const ty_ptr ty_basic ty_typename tn_cpp nm_str ns_prefix].
              cbn [append].
              destruct (scoped_template tnames "This") eqn:Hsc; [discriminate|].
              rewrite (mem_str_false_index_of _ _ Hp).
@@ -210,7 +210,7 @@ Section Proofs.
              rewrite Hthis. reflexivity.
           -- (* an ordinary unqualified name *)
              destruct (guards_elim _ Hd) as [G1 [G2 G3]].
-             unfold inst_type. cbn [ty_const ty_ptr ty_basic ty_typename tn_cpp nm_str ns_prefix].
+             unfold inst_type_impl. cbn [ty_const ty_ptr ty_basic ty_typename tn_cpp nm_str ns_prefix].
              cbn [append]. rewrite G1, G2, Ht, G3.
              cbn [ty_cpp Subst.subst_cpp app nm_str subst_path tn_args_cpp tn_cpp ns_prefix].
              unfold subst_head. rewrite (sigma_not_param _ Hp). rewrite Ht.
@@ -218,7 +218,7 @@ Section Proofs.
       + (* qualified name without parameters *)
         cbn [Subst.dom_ty] in Hd. apply andb_true_iff in Hd. destruct Hd as [Hf Hg].
         destruct (guards_elim _ Hg) as [G1 [G2 G3]].
-        unfold inst_type. cbn [ty_const ty_ptr ty_basic ty_typename].
+        unfold inst_type_impl. cbn [ty_const ty_ptr ty_basic ty_typename].
         rewrite G1, G2.
         assert (Hne : String.eqb (tn_cpp (Typename (a :: ns) (NStr n) [])) "This" = false).
         { destruct (String.eqb (tn_cpp (Typename (a :: ns) (NStr n) [])) "This") eqn:E; [|reflexivity].
@@ -232,7 +232,7 @@ Section Proofs.
       apply andb_true_iff in Hd. destruct Hd as [Hps Hg].
       destruct (guards_elim _ Hg) as [G1 [G2 G3]].
       cbn [first_level] in G1, G2, G3.
-      unfold inst_type. cbn [ty_const ty_ptr ty_basic].
+      unfold inst_type_impl. cbn [ty_const ty_ptr ty_basic].
       rewrite G1, G2.
       assert (Hne : String.eqb (tn_cpp (ty_typename (TTempl ns (NStr n) (map (rewrite_param tnames insts) ps) c p))) "This" = false).
       { match goal with |- String.eqb ?x _ = false => destruct (String.eqb x "This") eqn:E; [|reflexivity] end.
@@ -250,10 +250,10 @@ Section Proofs.
 
   (* qualifiers are never touched, on any input *)
   Theorem inst_type_quals : forall t,
-    ty_const (inst_type q tnames insts cpp icls t) = ty_const t /\
-    ty_ptr (inst_type q tnames insts cpp icls t) = ty_ptr t.
+    ty_const (inst_type_impl q tnames insts cpp icls t) = ty_const t /\
+    ty_ptr (inst_type_impl q tnames insts cpp icls t) = ty_ptr t.
   Proof.
-    intros t. unfold inst_type.
+    intros t. unfold inst_type_impl.
     set (t1 := match t with TTempl ns n ps c p => TTempl ns n (map (rewrite_param tnames insts) ps) c p | _ => t end).
     assert (Hc : ty_const t1 = ty_const t) by (destruct t; reflexivity).
     assert (Hp : ty_ptr t1 = ty_ptr t) by (destruct t; reflexivity).
@@ -268,4 +268,104 @@ Section Proofs.
           -- destruct (mem_str "This" ns); cbn [ty_const ty_ptr] in *; auto.
           -- destruct (mem_str "This" ns); cbn [ty_const ty_ptr] in *; auto.
   Qed.
+  (* ---- the structural substitution (spec mode of the model) prints as subst_cpp, unconditionally ---- *)
+  Fixpoint parsed_ty (t : ty) : bool :=
+    match t with
+    | TPlain (Typename _ (NStr _) []) _ _ _ => true
+    | TTempl _ (NStr _) ps _ _ => forallb parsed_ty ps
+    | _ => false
+    end.
+
+  Variable this_tn : typename.
+  Hypothesis Hthis_tn : tn_cpp this_tn = this_cpp.
+
+  Lemma sigma_tn_head : forall h,
+    match sigma_tn tnames insts this_tn h with
+    | Some x => subst_head tnames insts this_cpp h = tn_cpp x
+    | None => subst_head tnames insts this_cpp h = h
+    end.
+  Proof.
+    intros h. unfold sigma_tn, subst_head, Subst.sigma.
+    destruct (index_of h tnames) as [k|] eqn:E.
+    - assert (Hk : k < length insts).
+      { rewrite <- Hlen. clear - E. revert k E. induction tnames as [|y l IH]; intros k E; [discriminate|].
+        cbn [index_of] in E. destruct (String.eqb h y); [inversion E; cbn; lia|].
+        destruct (index_of h l) as [k'|]; [|discriminate]. inversion E. specialize (IH k' eq_refl). cbn. lia. }
+      rewrite (nth_inst_nth_error _ _ Hk). reflexivity.
+    - destruct (String.eqb h "This"); [symmetry; exact Hthis_tn | reflexivity].
+  Qed.
+
+  Theorem subst_ty_spec : forall t, parsed_ty t = true ->
+    ty_cpp (subst_ty tnames insts this_tn t) = subst_cpp t.
+  Proof.
+    induction t as [tn c p b | ns n ps c p IH] using ty_ind'; intros H.
+    - destruct tn as [ns n ins]. cbn [parsed_ty] in H.
+      destruct n as [n|]; [|discriminate]. destruct ins; [|discriminate].
+      cbn [subst_ty Subst.subst_cpp nm_str tn_args_cpp]. rewrite append_empty_r.
+      destruct (ns ++ [n]) as [|h rest] eqn:E.
+      + destruct ns; discriminate.
+      + unfold subst_path. pose proof (sigma_tn_head h) as Hh.
+        destruct (sigma_tn tnames insts this_tn h) as [x|].
+        * rewrite Hh. destruct rest.
+          -- cbn [ty_cpp]. unfold join. cbn [String.concat]. reflexivity.
+          -- cbn [ty_cpp tn_cpp nm_str ns_prefix]. reflexivity.
+        * rewrite Hh. cbn [ty_cpp tn_cpp nm_str]. rewrite <- E. rewrite join_path. reflexivity.
+    - cbn [parsed_ty] in H. destruct n as [n|]; [|discriminate].
+      assert (Hm : map ty_cpp (map (subst_ty tnames insts this_tn) ps) = map subst_cpp ps).
+      { induction ps as [|x r IHr]; [reflexivity|].
+        cbn [forallb] in H. apply andb_true_iff in H. destruct H as [Hx Hr].
+        inversion IH as [|? ? Px Pr]; subst. cbn [map]. rewrite (Px Hx). rewrite (IHr Pr Hr). reflexivity. }
+      cbn [subst_ty Subst.subst_cpp nm_str].
+      destruct (ns ++ [n]) as [|h rest] eqn:E.
+      + destruct ns; discriminate.
+      + unfold subst_path. pose proof (sigma_tn_head h) as Hh.
+        destruct (sigma_tn tnames insts this_tn h) as [x|].
+        * rewrite Hh. cbn [ty_cpp nm_str app]. rewrite Hm.
+          unfold join. cbn [String.concat]. reflexivity.
+        * rewrite Hh. cbn [ty_cpp nm_str]. rewrite Hm. rewrite <- E. reflexivity.
+  Qed.
 End Proofs.
+
+(* ---- both modes of the model's inst_type ---- *)
+Definition dom_q (q : quirks) (tnames : list string) (insts : list typename) (t : ty) : bool :=
+  if q_first_level_only q then dom_ty tnames insts t else parsed_ty t.
+
+Definition this_of (cpp icls : option typename) : typename :=
+  match icls with
+  | Some x => x
+  | None => match cpp with Some x => x | None => Typename [] (NStr "") [] end
+  end.
+
+Theorem inst_type_refines_q : forall q tnames insts cpp icls this_cpp,
+  length tnames = length insts -> tn_cpp (this_of cpp icls) = this_cpp ->
+  forall t, dom_q q tnames insts t = true ->
+  ty_cpp (inst_type q tnames insts cpp icls t) = subst_cpp tnames insts this_cpp t.
+Proof.
+  intros q tnames insts cpp icls this_cpp Hlen Hthis t Hd. unfold inst_type, dom_q in *.
+  destruct (q_first_level_only q).
+  - apply (inst_type_refines q tnames insts cpp icls this_cpp Hlen Hthis t Hd).
+  - apply (subst_ty_spec tnames insts cpp icls this_cpp Hlen Hthis (this_of cpp icls) Hthis t Hd).
+Qed.
+
+Lemma subst_ty_quals : forall tnames insts this_tn t,
+  ty_const (subst_ty tnames insts this_tn t) = ty_const t /\
+  ty_ptr (subst_ty tnames insts this_tn t) = ty_ptr t.
+Proof.
+  intros tnames insts this_tn t. destruct t as [[ns n ins] c p b | ns n ps c p].
+  - destruct n as [n|]; [|split; reflexivity]. destruct ins; [|split; reflexivity].
+    cbn [subst_ty]. destruct (ns ++ [n]) as [|h rest]; [split; reflexivity|].
+    destruct (sigma_tn tnames insts this_tn h); [|split; reflexivity].
+    destruct rest; split; reflexivity.
+  - destruct n as [n|]; [|split; reflexivity].
+    cbn [subst_ty]. destruct (ns ++ [n]) as [|h rest]; [split; reflexivity|].
+    destruct (sigma_tn tnames insts this_tn h); split; reflexivity.
+Qed.
+
+Theorem inst_type_quals_q : forall q tnames insts cpp icls t,
+  ty_const (inst_type q tnames insts cpp icls t) = ty_const t /\
+  ty_ptr (inst_type q tnames insts cpp icls t) = ty_ptr t.
+Proof.
+  intros. unfold inst_type. destruct (q_first_level_only q).
+  - apply inst_type_quals.
+  - apply subst_ty_quals.
+Qed.
